@@ -167,7 +167,11 @@ impl Lane for C15 {
             for k in 0..per {
                 let sched = if k == 0 {
                     let workers = cpu.unwrap_or(1).min(rows).max(1);
-                    SchedSpec { kind: SchedKind::StallOne { victim: rng.below(workers) as u32 }, seed: rng.next_u64() }
+                    {
+                        let victim = rng.below(workers) as u32;
+                        let seed = rng.next_u64();
+                        SchedSpec { kind: SchedKind::StallOne { victim }, seed, hold: crate::sched::hold_for_seed(seed) }
+                    }
                 } else {
                     draw_sched(rng, rows)
                 };
